@@ -222,21 +222,32 @@ def classify(diag, meta, gen_lines):
     site = None
     site_fn = None
     primary_kind = None
+    gen_name = meta.get('gen_file')
     for s in spans:
         ln = s.get('line_start')
+        fname = os.path.basename(s.get('file_name') or '')
+        in_gen = (gen_name is None) or (fname == gen_name)
+        if not in_gen:
+            # a span inside vstd (e.g. the `requires` of Option::unwrap): keep it for the record only
+            rec['spans'].append({'gen_line': None, 'primary': s.get('is_primary'), 'label': s.get('label'),
+                                 'src': [s.get('file_name'), ln], 'text': (s.get('text') or [{}])[0].get('text', '').strip()[:200] if s.get('text') else ''})
+            continue
         info = src_of(meta, ln) if ln else None
         text = gen_lines[ln - 1] if ln and ln <= len(gen_lines) else ''
         rec['spans'].append({'gen_line': ln, 'primary': s.get('is_primary'), 'label': s.get('label'),
                              'src': info[:2] if info else None, 'text': text.strip()[:200]})
-        # labels may be on any line of the span
+        slabel = (s.get('label') or '').lower()
+        is_site_span = slabel.startswith('at this') or slabel.startswith('at the end') or 'exit' in slabel
+        is_clause_span = s.get('is_primary') or slabel.startswith('failed')
         le = s.get('line_end') or ln
-        for k in range(ln, min(le, ln + 30) + 1):
-            if k <= len(gen_lines):
-                mm = re.search(r'//#\s*([\w.,+\- ]+)\s*$', gen_lines[k - 1])
-                if mm:
-                    for lab in re.split(r'[,\s]+', mm.group(1)):
-                        if lab and lab not in labels:
-                            labels.append(lab)
+        if is_clause_span and not is_site_span and (le - ln) <= 12:
+            for k in range(ln, le + 1):
+                if k <= len(gen_lines):
+                    mm = re.search(r'//#\s*([\w.,+\- ]+)\s*$', gen_lines[k - 1])
+                    if mm:
+                        for lab in re.split(r'[,\s]+', mm.group(1)):
+                            if lab and lab not in labels:
+                                labels.append(lab)
         if s.get('is_primary'):
             primary_kind = info[2] if info else 'tmpl'
         fb = fn_block_at(meta, ln) if ln else None
@@ -295,8 +306,9 @@ def verify_unit(unit, vacuity=True, extra=None, tag=''):
         r.status = 'error'
         r.message = 'extraction crashed: %r' % e
         return r
-    r.meta = meta
     stem = 'u_%s%s' % (unit, tag)
+    meta['gen_file'] = stem + '.rs'
+    r.meta = meta
     path = os.path.join(GEN, stem + '.rs')
     with open(path, 'w') as f:
         f.write(text)
@@ -368,7 +380,7 @@ def vacuity_pass(unit, tag=''):
         path = os.path.join(GEN, stem + '.rs')
         with open(path, 'w') as f:
             f.write(text)
-        cmd, out, err, rc, wall = run_verus(path, None, None, multiple_errors=1)
+        cmd, out, err, rc, wall = run_verus(path, None, None, multiple_errors=30)
         gen_lines = text.split('\n')
         diags, raw = parse_diags(err)
         refuted = False
